@@ -27,7 +27,7 @@ MAP.update({
  "C17e": ["C17"], "C17f": ["C17"], "C19e": ["C19"], "C19f": ["C19"], "C20e": ["C20"], "C20f": ["C20"],
 })
 for _i in range(1, 21):  # rounds 4 (g, h) and 5 (i, j): the check of the seed's own property
-    for _x in "ghijkl":
+    for _x in "ghijklmn":
         MAP["C%02d%s" % (_i, _x)] = ["C%02d" % _i]
 only = sys.argv[1:]
 MX = os.environ.get("MX", "/tmp/mx")  # several matrix runs side by side: MX=/tmp/mx2 DET=detection_b.json
@@ -37,7 +37,7 @@ def run(sid):
     pid, x = sid[:3], sid[3]
     patch = os.path.join(V, "seeded", sid, "patch.diff")
     if not os.path.exists(patch):
-        patch = "/tmp/seed/%s.out/%s/patch.diff" % (pid, x) if x in "ab" else ("/tmp/seed2/%s.out/%s/patch.diff" % (pid, {"c": "a", "d": "b"}[x]) if x in "cd" else ("/tmp/seed3/%s.out/%s/patch.diff" % (pid, {"e": "a", "f": "b"}[x]) if x in "ef" else ("/tmp/seed4/%s.out/%s/patch.diff" % (pid, {"g": "a", "h": "b"}[x]) if x in "gh" else ("/tmp/seed5/%s.out/%s/patch.diff" % (pid, {"i": "a", "j": "b"}[x]) if x in "ij" else "/tmp/seed6/%s.out/%s/patch.diff" % (pid, {"k": "a", "l": "b"}[x])))))
+        patch = "/tmp/seed/%s.out/%s/patch.diff" % (pid, x) if x in "ab" else ("/tmp/seed2/%s.out/%s/patch.diff" % (pid, {"c": "a", "d": "b"}[x]) if x in "cd" else ("/tmp/seed3/%s.out/%s/patch.diff" % (pid, {"e": "a", "f": "b"}[x]) if x in "ef" else ("/tmp/seed4/%s.out/%s/patch.diff" % (pid, {"g": "a", "h": "b"}[x]) if x in "gh" else ("/tmp/seed5/%s.out/%s/patch.diff" % (pid, {"i": "a", "j": "b"}[x]) if x in "ij" else ("/tmp/seed6/%s.out/%s/patch.diff" % (pid, {"k": "a", "l": "b"}[x]) if x in "kl" else "/tmp/seed7/%s.out/%s/patch.diff" % (pid, {"m": "a", "n": "b"}[x]))))))
     wt = MX + "/%s" % sid
     out = MX + "/out-%s" % sid
     subprocess.run(["git", "-C", "/repo", "worktree", "remove", "--force", wt], capture_output=True)
@@ -64,7 +64,7 @@ def run(sid):
 
 
 os.makedirs(MX, exist_ok=True)
-sids = [s for s in MAP if (not only and s[3] not in "ghijkl") or s in only]
+sids = [s for s in MAP if (not only and s[3] not in "ghijklmn") or s in only]
 fn = os.path.join(V, "seeded", os.environ.get("DET", "detection.json"))
 det = json.load(open(fn)) if os.path.exists(fn) else {}
 with ThreadPoolExecutor(4) as ex:
